@@ -65,6 +65,8 @@ def jobs(ctx):
     for nm, f, within, sig, has_e, flags, ex, on, why in TABLE:
         if ctx.prop == 'C12' and not nm.startswith('Task.'):
             continue
+        if ctx.prop == 'C06' and not nm.startswith('SharedFuture'):
+            continue
         try:
             b = find_body(repo, f, sig, nm, within=within)
             c = Rewriter(nm, pre=pre, nomembers=['_core'], methods=['Ready']).rewrite(b.text)
